@@ -463,17 +463,34 @@ def quaternion_of_rotation(M):
         qs = [c.fresh("qm") for _ in range(4)]
         R = symrot.quat_R(qs)
         # the eigenvector of the largest eigenvalue of K(M) is the same for k*M, k > 0: for a scaled rotation
-        # block (Sim(3) poses) the result is the unit quaternion of the rotation part.  k = 1 when the first
-        # row is shown to have unit norm (certified reduction); otherwise k is a fresh positive value
-        # with k^2 = |row 0|^2.  (For a block that is no scaled rotation the constraints are unsatisfiable and
-        # the path fails its reachability check: reported, never silently passed.)
-        rr = sc.reduced(M[0, 0] * M[0, 0] + M[0, 1] * M[0, 1] + M[0, 2] * M[0, 2])
-        rz = z3.simplify(toz(rr))
-        if z3.is_rational_value(rz) and sc.zval_to_fraction(rz) == 1:
+        # block (Sim(3) poses) the result is the unit quaternion of the rotation part.  k = 1 when the block
+        # is built from unit quaternions only; otherwise k is a fresh positive value.
+        # (For a block that is no scaled rotation the constraints are unsatisfiable and the path fails its
+        # reachability check: reported, never silently passed.)
+        from . import polyred as _pr
+        hyps = _pr.unit_hyps_of(c)
+        qvars = set()
+        for w_, (xyz_, q_) in hyps.lead.items():
+            qvars.add(w_)
+            qvars.update(xyz_)
+        qvars.update(c.memo.get("defs", {}))
+        mvars = set()
+        for i in range(3):
+            for j in range(3):
+                mvars |= sc.term_vars(toz(M[i, j]))
+        unit_row = mvars <= qvars
+        if not unit_row and len(mvars) <= 6:
+            # few atoms (e.g. cos/sin of one angle): ask the solver whether the first row has unit norm
+            rr = toz(M[0, 0]) * toz(M[0, 0]) + toz(M[0, 1]) * toz(M[0, 1]) + toz(M[0, 2]) * toz(M[0, 2])
+            r_, _ = c.solve([rr != 1], kind="certificate", timeout_ms=1000)
+            unit_row = (r_ == "unsat")
+        if unit_row:
+            # built from unit quaternions (and definitional atoms) only, or first row shown to have unit norm:
+            # a rotation the registry does not know; k = 1
             eqs = [R[i][j] == toz(M[i, j]) for i in range(3) for j in range(3)]
         else:
             k = c.fresh("qscale")
-            eqs = [k > 0, k * k == rz] + [k * R[i][j] == toz(M[i, j]) for i in range(3) for j in range(3)]
+            eqs = [k > 0] + [k * R[i][j] == toz(M[i, j]) for i in range(3) for j in range(3)]
         ax = z3.And([symrot.norm2(qs) == 1, qs[0] >= 0] + eqs)
         from . import polyred
         for x in qs:
